@@ -355,6 +355,50 @@ func verifControlIdentGood(ms []modeling.Material, ps []*modeling.Material, mesh
 	return table
 }
 
+// ranges whose name is unknown are filtered out of the list
+func verifControlIdentBad_MAT4(meshes []ObjMesh, table map[string]*modeling.Material) {
+	for mi, mesh := range meshes {
+		mats := mesh.Mesh.Materials()
+		kept := make([]modeling.MeshMaterial, 0, len(mats))
+		for _, e := range mats {
+			m, ok := table[e.Material.Name]
+			if !ok {
+				continue
+			}
+			e.Material = m
+			kept = append(kept, e)
+		}
+		meshes[mi].Mesh = mesh.Mesh.SetMaterials(kept)
+	}
+}
+
+// accepted: rebuilt entry for entry (append and indexed), comma-ok with nil on a miss
+func verifControlIdentGood_lists(meshes []ObjMesh, table map[string]*modeling.Material) {
+	for mi, mesh := range meshes {
+		mats := mesh.Mesh.Materials()
+		all := make([]modeling.MeshMaterial, 0, len(mats))
+		for _, e := range mats {
+			if m, ok := table[e.Material.Name]; ok {
+				e.Material = m
+			} else {
+				e.Material = nil
+			}
+			all = append(all, e)
+		}
+		meshes[mi].Mesh = mesh.Mesh.SetMaterials(all)
+	}
+	for mi, mesh := range meshes {
+		mats := mesh.Mesh.Materials()
+		all := make([]modeling.MeshMaterial, len(mats))
+		for i := 0; i < len(mats); i++ {
+			e := mats[i]
+			e.Material = table[e.Material.Name]
+			all[i] = e
+		}
+		meshes[mi].Mesh = mesh.Mesh.SetMaterials(all)
+	}
+}
+
 // ---------------------------------------------------------------- records, sinks, names
 
 // a record finished without having been started: the previous one is emitted again
